@@ -136,9 +136,10 @@ grid_replay = replay_file
 def run_C03(ctx):
     q = ctx.quick
     grid = [("rel", "align", not q, {}), ("sec", "align", False, {})] + ([] if q else [("dbg", "align", True, {})]) + ([("dbg", "align", False, {})] if q else [])
-    seq = [("rel", "P5", "S0", 4 if q else 5, [] if q else ["--prune"], {}), ("rel", "P5", "S1", 3 if q else 4, [], {})]
+    seq = [("rel", "P5", "S0", 4 if q else 5, [] if q else ["--prune"], {}), ("rel", "P5", "S1", 3 if q else 4, [], {}),
+           ("rel", "P5m", "S7", 3 if q else 5, [] if q else ["--prune"], {}), ("rel", "P5m", "S0", 4 if q else 6, [] if q else ["--prune"], {}), ("sec", "P5m", "S7", 3 if q else 4, [], {})]
     return mixed_property(ctx, seq, grid,
-        rule="(size, alignment, offset) grid: sizes = boundary grid (bin sizes +-1, page-kind and huge boundaries), alignments 2^0..2^27 (= 4x segment), offsets {0,8,16,24,40,size/2,size} (offset 0 only beyond half a segment), x 12 aligned entry points x 2 free-list phases; each result checked for (p+o)%a==0, usable>=n, overlap, accessibility, full-range pattern, mi_expand, realloc_aligned(_at) keeps alignment+contents, release through every free variant; plus profile P5 sequences (aligned allocs interleaved with frees/realloc_aligned).",
+        rule="node oracle of every sequence run: contents, no overlap, accessibility and a constant mi_usable_size for every untouched live block. P5m: over-allocated aligned blocks (8292 bytes, alignment 4096: interior pointers) from start state S7 (two pages of that class: the older one has been full, lost blocks and is last in its queue; the newer one is first, free list empty, still extendable: the next allocation moves the older page to the front) and from S0 with a helper thread that allocates two such blocks and terminates. (size, alignment, offset) grid: sizes = boundary grid (bin sizes +-1, page-kind and huge boundaries), alignments 2^0..2^27 (= 4x segment), offsets {0,8,16,24,40,size/2,size} (offset 0 only beyond half a segment), x 12 aligned entry points x 2 free-list phases; each result checked for (p+o)%a==0, usable>=n, overlap, accessibility, full-range pattern, mi_expand, realloc_aligned(_at) keeps alignment+contents, release through every free variant; plus profile P5 sequences (aligned allocs interleaved with frees/realloc_aligned).",
         assumptions=COMMON_ASSUME + ["offsets are multiples of 8 (an odd offset makes the returned pointer itself unaligned, which debug builds reject by design)",
                                      "mi_realloc_aligned is only applied to blocks that already have that alignment (for other blocks mimalloc documents 'use offset of previous allocation')"])
 
@@ -152,7 +153,7 @@ def run_C04(ctx):
            ("rel", "P4zh", "S0", 3 if q else 4, ["--dirty"], {}), ("rel", "P4z", "S3", 3 if q else 4, ["--dirty"], {}),
            ("rel", "P4z", "S0", 3 if q else 4, ["--dirty"], {"MIMALLOC_PURGE_DELAY": "0", "MIMALLOC_PURGE_DECOMMITS": "0", "VF_RESET_ZERO": "0"})]
     return mixed_property(ctx, seq, grid,
-        rule="zchain: every strictly increasing chain of length 2..3 (thorough: ..4) over a size ladder x 6 rezalloc/recalloc variants on memory of the involved classes dirtied with 0xFF; zero: 16 zero-initialising entry points x boundary size grid x {recycled, after forced collect}; sequences: profile P4z/P4zh (zalloc/calloc/zalloc_aligned/rezalloc/recalloc/free with the dirty-before-free discipline) from S0/S2/S3, also with immediate purge by reset (MADV_FREE keeps contents).",
+        rule="zchain: every strictly increasing chain of length 2..3 (thorough: ..4) over a size ladder (20 values, thorough 32; incl. 17 MiB, 17 MiB+100, 17 MiB+4000: growth in place inside the slack of a huge block on dirtied arena memory) x 6 rezalloc/recalloc variants on memory of the involved classes dirtied with 0xFF; zero: 16 zero-initialising entry points x boundary size grid x {recycled, after forced collect}; sequences: profile P4z/P4zh (zalloc/calloc/zalloc_aligned/rezalloc/recalloc/free with the dirty-before-free discipline) from S0/S2/S3, also with immediate purge by reset (MADV_FREE keeps contents).",
         assumptions=COMMON_ASSUME + ["zero-tracked blocks are only written within their requested size (the statement is about bytes between the previous and the new *requested* size)"])
 
 def run_C05(ctx):
@@ -242,9 +243,11 @@ def run_C13(ctx):
     # concurrent clause: purges racing claims/allocations of other threads, under the purge-related settings
     P0 = {"MIMALLOC_PURGE_DELAY": "0"}; P0R = {"MIMALLOC_PURGE_DELAY": "0", "MIMALLOC_PURGE_DECOMMITS": "0", "VF_RESET_ZERO": "1"}
     cplan = [("rel", "A2", 2, 0, P0), ("rel", "A2", 2, 0, P0R), ("rel", "A2", 2, 0, {}), ("rel", "A1", 2 if not q else 1, 0, P0), ("dbg", "A2", 1 if q else 2, 0, P0),
-             ("rel", "H4", 2, 0, P0), ("rel", "E1", 1 if q else 2, 0, envs(P0, {"MIMALLOC_ABANDONED_RECLAIM_ON_FREE": "1"})), ("rel", "H2", 1 if q else 2, 0, envs(P0, LAZY))]
-    res = conc_property(ctx, conc_jobs(ctx, cplan), extra_jobs=seq_jobs(ctx, plan),
-        rule="the C01/C04/C05/C12 oracles re-run under option configurations: quick = a pairwise-covering set of {purge_delay -1/0/5, purge_decommits, eager_commit, eager_commit_delay, arena_eager_commit 0/1/2, disallow_arena_alloc, arena_reserve 64MiB/1GiB, abandoned_reclaim_on_free, target_segments_per_thread 0/2, MADV_FREE keeps/drops contents} (thorough: + the full product of the nine allocator options) x all sequences of profile P8o {malloc 8K/64K/1M/17M, zalloc 8K, realloc, free(i), collect(0/1), tick(+1000ms)} (and P7t with threads) up to depth D, alternating rel/dbg/sec builds; additional monitor inside the OS shim: no madvise(DONTNEED/FREE), mprotect(PROT_NONE) or munmap range may intersect a live block; debug/secure builds revoke access on decommit so any touch of decommitted memory is a crash. Concurrent clause (schedule explorer): arena free/alloc/collect races (A1, A2) and remote-free / thread-exit programs (H2, H4, E1) with immediate purging by decommit and by reset: a purge that hits memory another thread just claimed destroys that thread's pattern.",
+             ("rel", "H4", 2, 0, P0), ("rel", "E1", 1 if q else 2, 0, envs(P0, {"MIMALLOC_ABANDONED_RECLAIM_ON_FREE": "1"})), ("rel", "H2", 1 if q else 2, 0, envs(P0, LAZY)),
+             ("rel", "AB1", 2, 0, RF), ("dbg", "AB1", 1 if q else 2, 0, RF), ("rel", "AB1", 1 if q else 2, 0, envs(RF, {"MIMALLOC_PURGE_DECOMMITS": "0", "VF_RESET_ZERO": "1"}))]
+    race = race_jobs(ctx, [("A2", P0), ("AB1", RF), ("H4", P0)])
+    res = conc_property(ctx, conc_jobs(ctx, cplan), extra_jobs=seq_jobs(ctx, plan) + race,
+        rule=RACE_NOTE.strip() + " The C01/C04/C05/C12 oracles re-run under option configurations: quick = a pairwise-covering set of {purge_delay -1/0/5, purge_decommits, eager_commit, eager_commit_delay, arena_eager_commit 0/1/2, disallow_arena_alloc, arena_reserve 64MiB/1GiB, abandoned_reclaim_on_free, target_segments_per_thread 0/2, MADV_FREE keeps/drops contents} (thorough: + the full product of the nine allocator options) x all sequences of profile P8o {malloc 8K/64K/1M/17M, zalloc 8K, realloc, free(i), collect(0/1), tick(+1000ms)} (and P7t with threads) up to depth D, alternating rel/dbg/sec builds; additional monitor inside the OS shim: no madvise(DONTNEED/FREE), mprotect(PROT_NONE) or munmap range may intersect a live block; debug/secure builds revoke access on decommit so any touch of decommitted memory is a crash. Concurrent clause (schedule explorer): arena free/alloc/collect races (A1, A2) and remote-free / thread-exit programs (H2, H4, E1) with immediate purging by decommit and by reset: a purge that hits memory another thread just claimed destroys that thread's pattern.",
         assumptions=COMMON_ASSUME + SCHED_ASSUME + ["options are set through MIMALLOC_* environment variables and parsed by the real option code at process start"])
     res["coverage"]["configurations"] = len(cfgs)
     res["coverage"]["configuration_samples"] = cfgs[:3]
@@ -318,7 +321,7 @@ def run_C18(ctx):
             plan.append(("rel", "purge", [], envs(e, {"MIMALLOC_DISALLOW_ARENA_ALLOC": "1"})))
             plan.append(("rel", "purge", [], envs(e, {"MIMALLOC_ARENA_RESERVE": "64MiB"})))
     return os_property(ctx, plan, level="model_checking", parallel=8,
-        rule="scenario enumeration with the virtual clock: {what becomes unused: a 1 MiB page inside a live segment, a whole (huge) segment, everything} x {later activity: free another page of the segment, allocate in the segment, alloc+free a 40 MiB block, mi_collect(false), small fast-path traffic (negative control)} x {purge_delay -1/0/5/10} x {decommit, reset} x {arena_purge_mult 1, 10} x {arenas on, off, small}. Oracle from the shim's call log: delay 0 -> the freed range is covered by madvise/munmap before the freeing call returns; delay d>0 -> no purge of the range before the clock passes d (d*mult for whole segments) whatever happens, and after it has passed the activities that reach a purge point (page: free of another page; segment: any arena free or non-forced collect) return the range without a forced collect; delay -1 -> no purge call at all, even under mi_collect(true).",
+        rule="scenario enumeration with the virtual clock: {what becomes unused: a 1 MiB page inside a live segment, a whole (huge) segment, everything, four non-adjacent pages of one segment, the same four pages with one of the spans taken and released again (delay+1000)/(delay-extend)+2 times before any time passes (re-use must re-arm the expiry, not accumulate it)} x {later activity: free another page of the segment, allocate in the segment, alloc+free a 40 MiB block, mi_collect(false), small fast-path traffic (negative control)} x {purge_delay -1/0/5/10} x {decommit, reset} x {arena_purge_mult 1, 10} x {arenas on, off, small}. Oracle from the shim's call log: delay 0 -> the freed range is covered by madvise/munmap before the freeing call returns; delay d>0 -> no purge of the range before the clock passes d (d*mult for whole segments) whatever happens, and after it has passed the activities that reach a purge point (page: free of another page; segment: any arena free or non-forced collect) return the range without a forced collect; delay -1 -> no purge call at all, even under mi_collect(true).",
         assumptions=COMMON_ASSUME + ["time is the shim's virtual clock", "allocating inside a segment re-arms its purge delay by design, so that activity is recorded as a control only"])
 
 # ------------------------------------------------------------------------------------------------
@@ -336,6 +339,24 @@ def conc_jobs(ctx, plan, harness="h_conc"):
         jobs.append(dict(bin=b, args=args, env=env, tag=tag, timeout=(400 if ctx.quick else 3000)))
     return jobs
 
+def race_jobs(ctx, progs, harness="h_conc"):
+    """supplementary race pass (build variant tsan): progs = list of (prog or ("family", lo, hi), env); free-running threads under
+    ThreadSanitizer, N runs per program; a report becomes a `data-race` violation whose message quotes the first report"""
+    jobs = []
+    b = ctx.build(harness, "tsan", sched=True)
+    n = 20 if ctx.quick else 300
+    for i, (prog, env) in enumerate(progs):
+        if isinstance(prog, tuple): pa = ["--family-lo", prog[1], "--family-hi", prog[2], "--race", 1 if ctx.quick else 5]; pn = f"family[{prog[1]}:{prog[2]})"
+        else: pa = ["--prog", prog, "--race", n]; pn = prog
+        prefix = os.path.join(ctx.out, "replays", f"tsan-{ctx.pid}-{pn.replace('[', '').replace(')', '').replace(':', '-')}-{os.getpid()}-{i}")
+        e = envs(env, {"TSAN_OPTIONS": f"exitcode=66 halt_on_error=0 report_signal_unsafe=0 log_path={prefix}"})
+        jobs.append(dict(bin=b, args=["--prop", ctx.pid] + pa + ["--race-log", prefix], env=e, tag=f"tsan/{pn}/race", timeout=(600 if ctx.quick else 3000)))
+    return jobs
+
+RACE_NOTE = (" Race pass (supplementary, sampling; it guards the premise of the schedule exploration and decides nothing about the explored schedules): the same program bodies are run with free-running threads under ThreadSanitizer"
+             " (quick: 20 runs per program, thorough: 300; generated programs 1 / 5 runs each); the scheduler's hand-offs are announced to the sanitizer per hand-off word; any report is a violation `data-race`."
+             " This is what sees plain (non-atomic) accesses that the token scheduler does not interleave, and memory orders weaker than the code states (a release turned into relaxed on the cross-thread free list is reported in 19 of 20 runs).")
+
 def conc_property(ctx, jobs, rule, assumptions, extra_jobs=()):
     tot, samples, viol, infra, per_run, dl = agg_runs(ctx, list(jobs) + list(extra_jobs), parallel=2, sample_limit=8)
     ex = sum(r["extra"].get("executions", 0) for r in per_run)
@@ -349,6 +370,7 @@ def conc_property(ctx, jobs, rule, assumptions, extra_jobs=()):
         rule=rule + " states = number of distinct execution outcomes (hash of what every thread observed: returned addresses, result codes and the state of its heap when it finished), summed over programs (plus distinct allocator-state fingerprints of sequential runs where a plan has them); transitions = scheduling decisions taken at choice points; every execution is a run of the real allocator under the token scheduler, so all explored schedules are validated against the implementation by construction.",
         samples=samples, exhaustive=not dl, executions=ex, choice_points=cps, instrumented_operations=ops, min_bound_completed=bmin,
         oracle_checks=tot["checks"], runs=per_run,
+        race_pass=dict(runs=sum(r["extra"].get("race_runs", 0) for r in per_run), flagged=sum(r["extra"].get("race_flagged_runs", 0) for r in per_run)),
         explanation="stateless exploration (iterative context bounding): for each preemption bound 0..B every schedule with at most that many preemptions (and at most S spurious weak-CAS failures) is executed in a fresh forked process; operations on addresses that only one thread touches are fused with the next operation, the conflict set is re-validated after every pass and the pass repeated until it is stable")
     if dl: cov["deadline_hit"] = True
     return dict(coverage=cov, assumptions=assumptions, violations=viol, infra=infra)
@@ -369,8 +391,9 @@ def run_C02(ctx):
     plan += [("dbg", "H2", 1 if q else 2, 1, {}), ("sec", "H3", 1 if q else 2, 1, {})]
     if q: plan += [("rel", ("family", 0, 700, ), 1, 0, {})]
     else: plan += [("rel", ("family", 0, 750), 2, 1, {}), ("rel", "H2", 3, 2, {}), ("rel", "H3", 3, 2, {}), ("rel", "H1", 3, 2, {}), ("rel", "H5", 3, 2, {}), ("dbg", "H5", 2, 1, {}), ("sec", "H2", 2, 1, {})]
-    return conc_property(ctx, conc_jobs(ctx, plan),
-        rule="programs: H1 (remote frees into a page with free blocks vs owner malloc through fast and generic path), H2 (page in the full queue: first remote free goes to the heap's delayed list, second to the page list, vs owner collect+malloc, 3 threads), H3 (two full pages, frees racing the owner's delayed-free take-over), H4 (huge block freed remotely vs owner collect/alloc), H5 (last blocks of a full page freed remotely and locally), D1 (heap delete vs frees), E1/E5 (frees into abandoned segments with reclaim-on-free), and a generated family: every program with 2 threads x 2 ops or 3 threads x 1 op over {malloc 8K, free a, free b, collect(0), collect(1)} on two shared blocks of one full page (750 programs). All interleavings up to the preemption bound (quick 2; family 1) with up to 1 spurious weak-CAS failure. Oracle: a block leaves the live set immediately before its free call and enters it after malloc returns; every returned range must be disjoint from all live blocks; every live block's full usable range must hold its pattern after every operation of every thread; no crash, assertion or error callback.",
+    race = race_jobs(ctx, [(p, {}) for p in ("H1", "H2", "H3", "H4", "H5", "D1")] + [("E5", RF), ("E1", RF), (("family", 0, 700 if q else 750), {})])
+    return conc_property(ctx, conc_jobs(ctx, plan), extra_jobs=race,
+        rule=RACE_NOTE.strip() + " Programs: H1 (remote frees into a page with free blocks vs owner malloc through fast and generic path), H2 (page in the full queue: first remote free goes to the heap's delayed list, second to the page list, vs owner collect+malloc, 3 threads), H3 (two full pages, frees racing the owner's delayed-free take-over), H4 (huge block freed remotely vs owner collect/alloc), H5 (last blocks of a full page freed remotely and locally), D1 (heap delete vs frees), E1/E5 (frees into abandoned segments with reclaim-on-free), and a generated family: every program with 2 threads x 2 ops or 3 threads x 1 op over {malloc 8K, free a, free b, collect(0), collect(1)} on two shared blocks of one full page (750 programs). All interleavings up to the preemption bound (quick 2; family 1) with up to 1 spurious weak-CAS failure. Oracle: a block leaves the live set immediately before its free call and enters it after malloc returns; every returned range must be disjoint from all live blocks; every live block's full usable range must hold its pattern after every operation of every thread; no crash, assertion or error callback.",
         assumptions=COMMON_ASSUME[:2] + SCHED_ASSUME)
 
 def run_C08(ctx):
@@ -379,8 +402,9 @@ def run_C08(ctx):
     plan += [("dbg", "H2", 1 if q else 2, 1, {})]
     if q: plan += [("rel", ("family", 0, 700), 1, 0, {})]
     else: plan += [("rel", ("family", 0, 750), 2, 1, {}), ("rel", "H2", 3, 1, {}), ("rel", "H3", 3, 2, {}), ("sec", "H3", 2, 1, {})]
-    return conc_property(ctx, conc_jobs(ctx, plan),
-        rule="A (nothing lost): programs H2, H3, H5, D1, D3 and the generated family (see C02): after the explored phase every remaining block is freed, the owner runs mi_heap_collect(heap, true) and then its heap must hold no page (page_count == 0 and no area with used > 0). B (no blow-up): producer/consumer PC: rounds of 8 blocks of 8 KiB (one page), the producer starts round r only after the consumer freed round r-2, six rounds, the owner never collects; the number of pages held by the owner after each round must stay <= 5 (3 pages of live/in-flight blocks + warm-up page + one retired page) in every interleaving (a stuck page per round gives >= 7).",
+    race = race_jobs(ctx, [(p, {}) for p in ("H2", "H3", "H5", "D1", "D3", "PC")] + [("R1", RF), ("R2", RF)])
+    return conc_property(ctx, conc_jobs(ctx, plan), extra_jobs=race,
+        rule=RACE_NOTE.strip() + " A (nothing lost): programs H2, H3, H5, D1, D3 and the generated family (see C02): after the explored phase every remaining block is freed, the owner runs mi_heap_collect(heap, true) and then its heap must hold no page (page_count == 0 and no area with used > 0). B (no blow-up): producer/consumer PC: rounds of 8 blocks of 8 KiB (one page), the producer starts round r only after the consumer freed round r-2, six rounds, the owner never collects; the number of pages held by the owner after each round must stay <= 5 (3 pages of live/in-flight blocks + warm-up page + one retired page) in every interleaving (a stuck page per round gives >= 7).",
         assumptions=COMMON_ASSUME[:2] + SCHED_ASSUME + ["PC sets generic_count=99 before each round so that the administrative step that mimalloc performs every 100 generic allocations happens once per round (time compression of a long run)", "the no-blow-up clause is checked for six rounds"])
 
 def run_C09(ctx):
@@ -390,10 +414,11 @@ def run_C09(ctx):
     for env in ({}, RF, NOARENA, ALL):
         for p in ("E1", "E4", "E5"): plan.append(("rel", p, 2, 1 if not q else 0, env))
         plan.append(("rel", "E2", 2, 0, env))
-    plan += [("rel", "E3", 1 if q else 2, 0, {}), ("rel", "E3", 1 if q else 2, 0, RF), ("dbg", "E1", 1 if q else 2, 0, RF), ("dbg", "E5", 1 if q else 2, 0, RF)]
+    plan += [("rel", "E3", 1 if q else 2, 0, {}), ("rel", "E3", 1 if q else 2, 0, RF), ("dbg", "E1", 1 if q else 2, 0, RF), ("dbg", "E5", 1 if q else 2, 0, RF), ("rel", "AB1", 2, 0, RF)]
     if not q: plan += [("rel", "E1", 3, 1, RF), ("rel", "E5", 3, 1, RF), ("sec", "E1", 2, 1, RF), ("dbg", "E3", 2, 0, NOARENA), ("rel", "E3", 2, 0, ALL)]
-    return conc_property(ctx, conc_jobs(ctx, plan),
-        rule="programs E1 (thread exit vs remote free of one of its blocks vs an allocation that may adopt), E2 (two segments left by finished threads; two threads allocate and free into them and may both adopt), E3 (forced abandonment through mi_collect_reduce with two segments vs remote frees into both), E4 (as E1 with the allocating thread in another sub-process), E5 (two remote frees into one abandoned segment, then both freeing threads allocate) x configurations {arena segments, OS segments (arenas disabled), reclaim-on-free on/off, visit_abandoned}. Oracle: blocks of the terminated thread keep their contents and can be freed by others; anything handed out after adoption is disjoint from all live blocks (two adopters would hand out the same memory); at the end, after all blocks are freed, all threads ended and the main thread force-collected, no arena block is in use or marked abandoned, the abandoned count is 0 and no segment-sized OS mapping is left.",
+    race = race_jobs(ctx, [(p, RF) for p in ("E1", "E2", "E3", "E4", "E5", "AB1")] + [("E1", {}), ("E2", NOARENA)])
+    return conc_property(ctx, conc_jobs(ctx, plan), extra_jobs=race,
+        rule=RACE_NOTE.strip() + " AB1: a forced collect visits (and purges) an abandoned segment while another thread adopts it by freeing one of its blocks and allocates in its pending-purge span; programs E1 (thread exit vs remote free of one of its blocks vs an allocation that may adopt), E2 (two segments left by finished threads; two threads allocate and free into them and may both adopt), E3 (forced abandonment through mi_collect_reduce with two segments vs remote frees into both), E4 (as E1 with the allocating thread in another sub-process), E5 (two remote frees into one abandoned segment, then both freeing threads allocate) x configurations {arena segments, OS segments (arenas disabled), reclaim-on-free on/off, visit_abandoned}. Oracle: blocks of the terminated thread keep their contents and can be freed by others; anything handed out after adoption is disjoint from all live blocks (two adopters would hand out the same memory); at the end, after all blocks are freed, all threads ended and the main thread force-collected, no arena block is in use or marked abandoned, the abandoned count is 0 and no segment-sized OS mapping is left.",
         assumptions=COMMON_ASSUME[:2] + SCHED_ASSUME + ["thread exit is the explicit mi_thread_done() call; the pthread-key destructor later finds the heap already released"])
 
 def run_C10(ctx):
@@ -406,9 +431,10 @@ def run_C10(ctx):
     ]
     cplan = [("rel", p, 2, 1, {}) for p in ("D1", "D2", "D3")] + [("dbg", "D1", 1 if q else 2, 0, {}), ("sec", "D3", 1 if q else 2, 0, {})]
     if not q: cplan += [("rel", "D1", 3, 1, {}), ("rel", "D3", 3, 1, {}), ("rel", "D2", 3, 1, {})]
+    race = race_jobs(ctx, [(p, {}) for p in ("D1", "D2", "D3")])
     res = conc_property(ctx, conc_jobs(ctx, cplan),
-        rule="sequential part: all sequences over {heap_new (2 slots), heap_malloc(h,8K/48), malloc (default heap), free(i), heap_delete(h), heap_destroy(h), set_default(h), collect(1)} up to depth D from start states S0/S1/S3/S4; model: blocks carry a heap id, delete relabels to the backing heap, destroy removes exactly that heap's blocks, deleting the default heap falls back to the backing heap; node oracle: all live blocks intact, mi_heap_contains_block / mi_heap_check_owned true for exactly the model's heap, heap walks agree with the model. Concurrent part: D1 (mi_heap_delete of a heap with a full page while two other threads free blocks of it), D2 (mi_heap_collect forced / not forced + allocation vs remote frees), D3 (delete of a heap with two full pages vs frees into both): every interleaving up to the preemption bound; oracle: no crash, live blocks intact, and after everything is freed and the owner collected its backing heap holds no page (a free that landed on the deleted heap's list would be lost).",
-        assumptions=COMMON_ASSUME + SCHED_ASSUME, extra_jobs=seq_jobs(ctx, plan))
+        rule=RACE_NOTE.strip() + " Sequential part: all sequences over {heap_new (2 slots), heap_malloc(h,8K/48), malloc (default heap), free(i), heap_delete(h), heap_destroy(h), set_default(h), collect(1)} up to depth D from start states S0/S1/S3/S4; model: blocks carry a heap id, delete relabels to the backing heap, destroy removes exactly that heap's blocks, deleting the default heap falls back to the backing heap; node oracle: all live blocks intact, mi_heap_contains_block / mi_heap_check_owned true for exactly the model's heap, heap walks agree with the model. Concurrent part: D1 (mi_heap_delete of a heap with a full page while two other threads free blocks of it), D2 (mi_heap_collect forced / not forced + allocation vs remote frees), D3 (delete of a heap with two full pages vs frees into both): every interleaving up to the preemption bound; oracle: no crash, live blocks intact, and after everything is freed and the owner collected its backing heap holds no page (a free that landed on the deleted heap's list would be lost).",
+        assumptions=COMMON_ASSUME + SCHED_ASSUME, extra_jobs=seq_jobs(ctx, plan) + race)
     return res
 
 def run_C14(ctx):
@@ -417,8 +443,9 @@ def run_C14(ctx):
     plan = [("rel", "A1", 2, 1, {}), ("rel", "A3", 2, 1, {}), ("rel", "A2", 2, 1, {}), ("rel", "A2", 2, 1, P0), ("rel", "A1", 2, 0, P0), ("dbg", "A3", 1 if q else 2, 0, {}), ("dbg", "A2", 1 if q else 2, 0, P0)]
     if not q: plan += [("rel", "A1", 3, 1, {}), ("rel", "A3", 3, 2, {}), ("rel", "A2", 3, 1, P0), ("sec", "A2", 2, 1, P0)]
     bjobs = conc_jobs(ctx, [("rel", "B1", 3 if q else 6, 0, {}), ("rel", "B2", 2 if q else 3, 0, {}), ("rel", "B3", 2 if q else 3, 0, {})], harness="h_bitmap") if os.path.exists(os.path.join(ctx.verif, "harness", "h_bitmap.c")) else []
-    return conc_property(ctx, conc_jobs(ctx, plan) + bjobs,
-        rule="arena seam (real _mi_arena_alloc_aligned / _mi_arena_free / _mi_arenas_collect on a private exclusive arena): A1 (70-block arena with 60 blocks taken: three threads claim 5, 4 and 3 blocks so that claims cross the bitmap word boundary and compete, two free again), A3 (a cross-word claim loses its final word to a competing claim and rolls back its initial word while a third thread frees other blocks of that word), A2 (arena free -- which schedules or performs a purge -- racing allocations that may take the same blocks, plus a collector after a clock tick), with purge delay default and 0. Oracle: successful claims are pairwise disjoint and inside the arena; the first and last 64 KiB of every claimed range keep their pattern (a purge racing a claim would zero it); at quiescence the in-use bitmap holds only the left-over bits and the whole arena can be allocated in one piece.",
+    race = race_jobs(ctx, [("A1", {}), ("A2", {}), ("A3", {}), ("A2", P0), ("A1", P0)])
+    return conc_property(ctx, conc_jobs(ctx, plan) + bjobs, extra_jobs=race,
+        rule=RACE_NOTE.strip() + " Arena seam (real _mi_arena_alloc_aligned / _mi_arena_free / _mi_arenas_collect on a private exclusive arena): A1 (70-block arena with 60 blocks taken: three threads claim 5, 4 and 3 blocks so that claims cross the bitmap word boundary and compete, two free again), A3 (a cross-word claim loses its final word to a competing claim and rolls back its initial word while a third thread frees other blocks of that word), A2 (arena free -- which schedules or performs a purge -- racing allocations that may take the same blocks, plus a collector after a clock tick), with purge delay default and 0. Oracle: successful claims are pairwise disjoint and inside the arena; the first and last 64 KiB of every claimed range keep their pattern (a purge racing a claim would zero it); at quiescence the in-use bitmap holds only the left-over bits and the whole arena can be allocated in one piece.",
         assumptions=COMMON_ASSUME[:2] + SCHED_ASSUME)
 
 def run_C16(ctx):
@@ -473,8 +500,9 @@ def run_C17(ctx):
     pr = [] if q else ["--prune"]
     plan = [("sec", "P9s", "S0", 5 if q else 7, pr, {}), ("dbg", "P9s", "S0", 5 if q else 7, pr, {}), ("sec", "P9s", "S1", 4 if q else 5, pr, {}), ("dbg", "P9s", "S1", 4 if q else 5, pr, {}),
             ("sec", "P9s", "S4", 4 if q else 5, pr, {}), ("sec", "P1", "S0", 4 if q else 6, pr, {})]
-    return seq_property(ctx, plan,
-        rule="hardened builds (MI_SECURE=4 decides 'stays usable'; MI_DEBUG=3 the reports only), error callback registered: all sequences over {malloc(8000), malloc(100), fill(8 x 8000 = one page), free(i)} plus the three faults at every position the history allows: double_free(j) = second free of any of the six most recently released blocks that is still free while its page holds another live block (expected: exactly one EAGAIN and an unchanged allocator fingerprint); overflow_then_free(i) = one foreign byte at p[requested] of a block with slack, then free (expected: EFAULT); forge_link(j, target) = the free-list link of a released block overwritten with the encoding of an address outside its page (another segment, or a live block of another page) (expected: EFAULT when the allocator reaches it instead of following it). In the secure build exploration continues afterwards under the C01 oracle (no overlap, contents, accessibility) and every live block must lie in a heap region; in the debug build the branch ends after the first report.",
+    grid = [("sec", "hardened", not q, {}), ("dbg", "hardened", not q, {})]
+    return mixed_property(ctx, plan, grid,
+        rule="size grid (mode hardened, every case in its own process): every requested size 1..130 and the boundary size grid up to 2 MiB x {foreign byte at offset = requested size, block freed by its own thread -> EFAULT; the same freed by another thread -> EFAULT; second free while a neighbour in the same page is live -> exactly one EAGAIN, afterwards two allocations return distinct non-overlapping blocks (secure build)}. Histories: hardened builds (MI_SECURE=4 decides 'stays usable'; MI_DEBUG=3 the reports only), error callback registered: all sequences over {malloc(8000), malloc(100), fill(8 x 8000 = one page), free(i)} plus the three faults at every position the history allows: double_free(j) = second free of any of the six most recently released blocks that is still free while its page holds another live block (expected: exactly one EAGAIN and an unchanged allocator fingerprint); overflow_then_free(i) = one foreign byte at p[requested] of a block with slack, then free (expected: EFAULT); forge_link(j, target) = the free-list link of a released block overwritten with the encoding of an address outside its page (another segment, or a live block of another page) (expected: EFAULT when the allocator reaches it instead of following it). In the secure build exploration continues afterwards under the C01 oracle (no overlap, contents, accessibility) and every live block must lie in a heap region; in the debug build the branch ends after the first report.",
         assumptions=COMMON_ASSUME + ["forged values that decode into the same page, and a second free after the whole page was released, are outside the claim and not generated"])
 
 def run_C15(ctx):
